@@ -69,6 +69,47 @@ def status(top: int, second: int, has_msg: bool, has_assertion: bool, version: i
     return ok, reached, "accepted=%s exc=%r" % (acc, exc)
 
 
+def _msg(ck, k, top, second, version, uid):
+    t = ck.stamp(1 + 3 * k, 1000000)
+    a = mk_assertion(t, {"not_on_or_after": ck.stamp(2 + 3 * k, 1000600), "audiences": [[SP_ID]]},
+                     {"not_on_or_after": ck.stamp(3 + 3 * k, 1000600), "in_response_to": REQ_ID, "recipient": ACS},
+                     {}, attrs=[saml.Attribute(name="uid", attribute_value=[saml.AttributeValue(text=uid)])], name_id_text=uid)
+    sec = None if second == N2 else ("urn:example:unknown-second" if second == N2 + 1 else SECONDS[second])
+    return mk_response(t, [a], status=mk_status(TOPS[top], sec, None), version=VERSIONS[version])
+
+
+def reuse(top1: int, version1: int, top2: int, second2: int, version2: int, verify_twice: bool):
+    """One response object handles two messages in a row (loads + verify each, as an application
+    that keeps its AuthnResponse around does, or verify() is run twice as Entity._parse_response
+    does): the verdict on the second message is its own, never the first one's."""
+    ck = Clock(1000000)
+    ar = mk_authn_response(_msg(ck, 0, top1, N2, version1, "alice"))
+    acc1 = False
+    try:
+        ar.loads("<concrete/>", False)
+        acc1 = ar.verify() is not None
+        if verify_twice:
+            acc1 = ar.verify() is not None
+    except Exception:
+        acc1 = False
+    ar.sec.obj = _msg(ck, 1, top2, second2, version2, "mallory")
+    acc2 = False
+    exc = None
+    try:
+        ar.loads("<concrete/>", False)
+        acc2 = ar.verify() is not None
+    except Exception as e:
+        exc = e
+    bad1 = (top1 != 0) | (version1 != 0)
+    bad2 = (top2 != 0) | (version2 != 0)
+    ok = (acc1 == (not bad1)) & (acc2 == (not bad2))
+    if bad2 & (version2 == 0) & (second2 < N2):
+        ok = ok & (exc is not None) & (type(exc).__name__ == EXPECT[second2])
+    if (not bad2) & acc2:
+        ok = ok & (ar.name_id is not None) & (ar.name_id.text == "mallory") & (ar.ava == {"uid": ["mallory"]})
+    return ok, acc2 | bad2, "first accepted=%s second accepted=%s exc=%r" % (acc1, acc2, exc)
+
+
 REQS = [("authn_request", AuthnRequest, lambda t, v: samlp.AuthnRequest(id="id-q1", version=v, issue_instant=t, issuer=saml.Issuer(text=SP_ID))),
         ("logout_request", LogoutRequest, lambda t, v: samlp.LogoutRequest(id="id-q1", version=v, issue_instant=t, issuer=saml.Issuer(text=SP_ID),
                                                                           name_id=saml.NameID(text="x"))),
@@ -138,6 +179,15 @@ CONDITIONS = [
                     "response.STATUSCODE2EXCEPTION", "validate.valid_instance"],
          bounds="top-level code in {Success, Requester, Responder, VersionMismatch, unknown}; second-level: all 21 table codes, absent, unknown; "
                 "status message present/absent; assertion present/absent; Version from a 16-entry catalogue incl. strings that only float() equates with 2.0 ('2', '2.00', '+2.0', '2e0', padded, 'nan') (quick: 2.0, 1.0, x for every status; the rest with Success) - finite table, exhaustive"),
+    Cond(name="reuse", fn="reuse",
+         params=[("top1", "int"), ("version1", "int"), ("top2", "int"), ("second2", "int"), ("version2", "int"), ("verify_twice", "bool")],
+         pre=["0 <= top1 < %d" % len(TOPS), "0 <= top2 < %d" % len(TOPS), "0 <= second2 <= %d" % (N2 + 1), "0 <= version1 < 6", "0 <= version2 < 6"],
+         partitions={"quick": [{"top1": 0, "version1": 0, "top2": t} for t in range(len(TOPS))] + [{"top1": 2, "version1": 0, "top2": 0}, {"top1": 0, "version1": 1, "top2": 0}],
+                     "thorough": [{"top1": a, "top2": b} for a in range(len(TOPS)) for b in range(len(TOPS))]},
+         timeout={"quick": 300, "thorough": 600}, path_timeout=60,
+         functions=["response.StatusResponse.loads/_loads/_verify/status_ok", "response.AuthnResponse.verify/parse_assertion"],
+         bounds="two messages in a row through one AuthnResponse object (each: top-level code, Version from the first 6 catalogue entries; second message: all second-level codes), "
+                "optionally verify() twice on the first; quick: first message good, or one bad first message"),
     Cond(name="version_string", fn="version_string", params=[("v", "str"), ("is_request", "bool")],
          pre=["len(v) <= 6"], partitions={"quick": [{"is_request": True}]},
          timeout={"quick": 300, "thorough": 900}, path_timeout=60,
